@@ -461,8 +461,8 @@ def _rw_io_once2(tl):
             j = _close(tl, i + 3)
             # the exiting pop routine has the two writers in scope: pass them so that the helper can require that
             # both were flushed (delivered) before the process ends
-            if "out" in tl and "err" in tl:
-                out += ["proc_exit_flushed", "("] + tl[i + 4:j] + [",", "out", ",", "err", ")"]
+            if "out" in tl and "err" in tl and "idx" in tl:
+                out += ["proc_exit_flushed", "("] + tl[i + 4:j] + [",", "out", ",", "err", ",", "idx", ")"]
             else:
                 out += ["proc_exit", "("] + tl[i + 4:j] + [")"]
             i = j + 1
